@@ -569,7 +569,7 @@ def act_label(a):
     return "%s(%s,%s)" % (a["a"], a["name"], json.dumps(a["M"], separators=(",", ":")))
 
 
-def observe(rep, der, key, mode, with_dict=True):
+def observe(rep, der, key, mode, with_dict=True, queries=True):
     """the Eval action on the live objects: the word battery of the state `key` (every word up to
     WordLen over every stored letter) on the original and on the derived representation, the
     dictionaries, and the differential -- compared with the specification's values for that state"""
@@ -584,7 +584,7 @@ def observe(rep, der, key, mode, with_dict=True):
         if with_dict:
             need(rc.dict_check(der, gens_of(k["dgens"]), dm, "derived.generators"))
         need(rc.words_check(der, dm, obs["dvals_t"], "derived.image", all_forms=False))
-    if mode.naming == "single" and mode.parse is None and k["gens"]:
+    if queries and mode.naming == "single" and mode.parse is None and k["gens"]:
         # the Enumerate action: vectorised evaluation in both directions
         auto_check(rep, HWORDLEN, obs["vals_t"], obs["red_t"], full=False)
         lowers = list(rep.asym_gens())
@@ -627,7 +627,9 @@ def replay_path(path, mode, eval_everywhere=True):
         if to not in HEVAL:
             raise core.MachineryFailure("RepHist: no Eval transition emitted for a visited state")
         try:
-            observe(rep, der, to, mode, with_dict=True)
+            # (histories of 4 steps: the vectorised evaluation and the differential are interleaved from the
+            # third step on only -- every shorter history has them after every step)
+            observe(rep, der, to, mode, with_dict=True, queries=last or len(path) < 4 or i >= 2)
         except Bad as b:
             where = "" if last else "after step %d of %d (Eval interleaved): " % (i + 1, len(path))
             return (b.clause, where + b.detail)
